@@ -82,6 +82,35 @@ func (e *Engine) intrinsic(fr *Frame, st *State, ins ssa.Instruction, fn *ssa.Fu
 		full = fnKey(fn)
 	}
 	isOurs := strings.HasPrefix(pkgPath, "github.com/gobwas/ws")
+	if isOurs && fn.Signature.Recv() == nil && strings.HasPrefix(name, "eqv") && len(args) == 2 {
+		// eqvXxx(a, b): equality of two values of a type Go cannot compare with == (structs holding slices)
+		a, ok1 := args[0].(*Term)
+		b, ok2 := args[1].(*Term)
+		if ok1 && ok2 && a.Sort == b.Sort {
+			return tb.Eq(a, b), true
+		}
+	}
+	if isOurs && fn.Signature.Recv() == nil && strings.HasPrefix(name, "uf") && len(name) > 2 && name[2] >= 'A' && name[2] <= 'Z' && fn.Signature.Results().Len() == 1 {
+		// ufXxx(...): an uninterpreted specification function
+		var ts []*Term
+		var ss []string
+		for _, a := range args {
+			t, ok := a.(*Term)
+			if !ok {
+				if p, isP := a.(*PtrVal); isP {
+					t = e.ptrTerm(p)
+				} else {
+					unsupported("uninterpreted function %s: argument is not a term", name)
+				}
+			}
+			ts = append(ts, t)
+			ss = append(ss, string(t.Sort))
+		}
+		rs := e.sortOf(fn.Signature.Results().At(0).Type())
+		ufn := "spec_" + sanitize(shortPkg(pkgPath)+"_"+name)
+		tb.DeclareUF(ufn, "("+strings.Join(ss, " ")+") "+string(rs))
+		return e.asVal(tb.App(ufn, rs, ts...), fn.Signature.Results().At(0).Type()), true
+	}
 	if isOurs && fn.Signature.Recv() == nil && strings.HasSuffix(name, "Fold") && len(args) == 3 && fn.Pkg != nil {
 		if step := fn.Pkg.Func(name + "Step"); step != nil {
 			return e.foldIntrinsic(fr, st, fn, step, args), true
